@@ -41,6 +41,8 @@ def normal_origin(origin: str) -> str:
             node = ast.parse(text, mode="eval").body
             if isinstance(node, ast.Call):
                 text = (node.func.attr if isinstance(node.func, ast.Attribute) else ast.unparse(node.func)) + "(…)"
+            elif isinstance(node, ast.Subscript) and isinstance(node.value, ast.Call) and isinstance(node.value.func, ast.Attribute):
+                text = f"{node.value.func.attr}(…)[{ast.unparse(node.slice)}]"
             elif m:
                 text = m.group(1) + "(…)"
         except SyntaxError:
